@@ -177,7 +177,11 @@ func buildShiftMatchingPredicate(sw swamp.Swamp, beaconType swamp.BeaconType, fi
 	if plan.Mode != PlanModeBypass {
 		candidates := collectBucketCandidates(sw, plan.Hints)
 		keySet = candidateKeySet(candidates)
-		filterEval = plan.Residual
+		// The candidate set is a snapshot taken BEFORE the engine's selection
+		// lock: a record can leave the indexed value before it is examined.
+		// Keep evaluating the complete filter (not plan.Residual) on the
+		// candidates so the indexed leg is re-checked under the record guard;
+		// the key set stays a pure fast-reject.
 	}
 
 	if !hasTimeBounds {
